@@ -748,8 +748,9 @@ func (w *World) obJ() []ObJ {
 // the real observer
 
 const (
-	stepLimit  = 25 * time.Second // watchdog of one wait (a persistent RPC failure takes 6 s of retries)
-	quietLimit = 1500 * time.Millisecond
+	stepLimit   = 25 * time.Second // watchdog of one wait (a persistent RPC failure takes 6 s of retries)
+	quietLimit  = 1500 * time.Millisecond
+	settleLimit = 400 * time.Millisecond
 )
 
 func (o *observer) beginStep(f FaultJ) {
@@ -1098,6 +1099,25 @@ func (o *observer) poll(f FaultJ) pollObs {
 	if !ok {
 		o.kill()
 		res.Ret, res.Detail = "hang", "the handler loop did not finish the page"
+		return o.finish(res, done)
+	}
+	// an item that ended with an error may end the service a moment later (it does not in the tree
+	// as found, where every error is logged and skipped): give it the time to do so
+	o.mu.Lock()
+	suspicious := o.fired
+	for _, r := range o.refused {
+		suspicious = suspicious || r
+	}
+	o.mu.Unlock()
+	if !suspicious {
+		for _, e := range o.pg.Log() {
+			if e.Kind == fakepg.KindRollback || e.Kind == fakepg.KindError || e.Kind == fakepg.KindDrop {
+				suspicious = true
+			}
+		}
+	}
+	if suspicious {
+		o.waitFor(settleLimit, ended)
 	}
 	return o.finish(res, done)
 }
